@@ -114,12 +114,9 @@ fn join(d: Dialect, depth: u32, exec: bool) -> BoxedStrategy<JoinSpec> {
 }
 
 fn with(d: Dialect, depth: u32, exec: bool) -> BoxedStrategy<WithSpec> {
-    let cte = (0u8..2, proptest::option::weighted(0.3, any::<bool>()), select(d, depth, exec)).prop_map(|(name, materialized, q)| CteSpec {
-        name,
-        cols: vec![],
-        materialized,
-        query: Box::new(q),
-    });
+    let cte = (0u8..2, proptest::option::weighted(0.3, any::<bool>()), select(d, depth, exec), proptest::collection::vec(0u8..5, 0..3), proptest::bool::weighted(0.3)).prop_map(
+        |(name, materialized, q, cols, derive)| CteSpec { name, cols: if derive { vec![] } else { cols }, materialized, query: Box::new(q), derive },
+    );
     (proptest::bool::weighted(0.2), proptest::collection::vec(cte, 1..3), proptest::option::weighted(0.2, (any::<bool>(), 0u8..5)), proptest::option::weighted(0.2, 0u8..5))
         .prop_map(|(recursive, ctes, search, cycle)| WithSpec { recursive, ctes, search, cycle })
         .boxed()
@@ -590,6 +587,7 @@ fn fix_select_exec_n(s: &mut SelectSpec, o: ExecOpts, allow_with: bool, arity: O
             let wheres: Vec<E> = c.query.wheres.iter().map(|w| if o.portable { portable_expr(w) } else { w.clone() }).collect();
             *c.query = passthrough_select(t, wheres, None);
             c.cols = vec![];
+            c.derive = false; // derived names would rename the columns the outer statement refers to
             if o.portable {
                 c.materialized = None;
             }
